@@ -9,6 +9,11 @@ lemmas are proved (Properties/C10.lean); the RUNTIME part is validated here:
             compared with the addresses the real iterator reads, recovered by probing `mean_filter` with one-hot
             footprints on an arange image (1-3 D, six modes, filters smaller/equal/larger than the array);
   * model   the executable bounds checkers of the other index models are run on random parameters of the domain.
+  * model2  (round 2) the index models of zoom_shift, spline_filter1d, haar/wavelet/iwavelet/ihaar, integral, the Graham
+            scan, thin and the cwatershed neighbour test are compared (verdict, number and sum of indices, termination)
+            with a DIRECT Python evaluation of the same C++ index expressions on random parameters;
+  * zoomshift  the elements the REAL zoom_shift reads at every output position (support of the outputs for one-hot
+            inputs, prefilter off; orders 0 and 5 by a valid direct call of the entry point) against the model's index list.
 """
 from __future__ import annotations
 import inspect, json
@@ -20,7 +25,8 @@ LEVEL = 'other'
 RULE = ('corpus; sweep = every public function with native code behind it x valid calls from harness/catalog.py (1-4 D, 9 integer + 2 float '
         'dtypes, 7 layouts, axis lengths 1..40, structuring elements/kernels/templates smaller than, equal to and larger than the image), each '
         'under ASan and twice with differently filled freed heap; filter = one-hot probing of the filter iterator against the Lean closed form; '
-        'model = executable bounds checkers on random parameters. Non-trivial = the call reached native code and returned a value; '
+        'model = executable bounds checkers on random parameters; model2 = round-2 index models against a direct Python evaluation of the C++ index '
+        'expressions; zoomshift = elements read by the real zoom_shift (one-hot probing) against the model. Non-trivial = the call reached native code and returned a value; '
         'distinct = distinct (function, argument specs).')
 ASSUMPTIONS = ['documented domain: at least one element per axis, supported dtypes (bool, 8 integer types, float32/64), neighbourhoods of the '
                'rank of the image, labels non-negative, scalar parameters in range, finite values',
@@ -30,7 +36,7 @@ ASSUMPTIONS = ['documented domain: at least one element per axis, supported dtyp
 TRUSTED = ['clang 14 AddressSanitizer runtime', 'numpy (array construction, layouts)', 'harness/iso.py worker isolation']
 EXHAUSTIVE = {}
 EXPLANATION = ('proved in Lean: bounds lemmas about the index-arithmetic models (Properties/C10.lean); validated only: that the compiled '
-               'kernels perform exactly those accesses (ASan sweep + one-hot probing of the filter iterator)')
+               'kernels perform exactly those accesses (ASan sweep + one-hot probing of the filter iterator and of zoom_shift)')
 
 SRC = {}
 NONC = ('F', 'negstride', 'transposed')
@@ -165,11 +171,421 @@ def _eval_model(case):
     return dict(findings=fnd, nontrivial=True, sig=line, tags=dict(kind='model', which=line.split()[1].split('=')[1], expect=want))
 
 
+
+# ---- round 2: the index models of B8/B5/B4, evaluated DIRECTLY in Python from the C++ index expressions ---------
+# Each function below re-evaluates the loops of the named kernel (same enumeration order as Model/C10.lean) and returns
+# (list of (index, size), term). The driver's ok/n/sum/term must agree, and parameters of the domain must give ok=1.
+
+def _iter_ne(x, stop, fuel):
+    out = []
+    while fuel > 0 and x != stop:
+        out.append(x)
+        x += 1
+        fuel -= 1
+    return out, x == stop
+
+
+def _cdiv(a, b):
+    """C integer division (towards zero)"""
+    q = abs(a) // abs(b)
+    return q if (a >= 0) == (b >= 0) else -q
+
+
+def _py_fix_offset(mode, cc, ln):
+    """port of fix_offset (_filters.h); mode by code 0 nearest 1 wrap 2 reflect 3 mirror 4 constant 5 ignore; None = flag"""
+    if mode == 3:
+        if cc < 0:
+            if ln <= 1:
+                return 0
+            sz2 = 2 * ln - 2
+            cc = sz2 * _cdiv(-cc, sz2) + cc
+            return cc + sz2 if cc <= 1 - ln else -cc
+        if cc >= ln:
+            if ln <= 1:
+                return 0
+            sz2 = 2 * ln - 2
+            cc -= sz2 * _cdiv(cc, sz2)
+            if cc >= ln:
+                cc = sz2 - cc
+        return cc
+    if mode == 2:
+        if cc < 0:
+            if ln <= 1:
+                return 0
+            sz2 = 2 * ln
+            if cc < -sz2:
+                cc = sz2 * _cdiv(-cc, sz2) + cc
+            if cc == 0:
+                return 0
+            return cc + sz2 if cc < -ln else -cc - 1
+        if cc >= ln:
+            if ln <= 1:
+                return 0
+            sz2 = 2 * ln
+            cc -= sz2 * _cdiv(cc, sz2)
+            if cc >= ln:
+                cc = sz2 - cc - 1
+        return cc
+    if mode == 1:
+        if cc < 0:
+            if ln <= 1:
+                return 0
+            cc += ln * _cdiv(-cc, ln)
+            if cc < 0:
+                cc += ln
+        elif cc >= ln:
+            if ln <= 1:
+                return 0
+            cc -= ln * _cdiv(cc, ln)
+        return cc
+    if mode == 0:
+        return 0 if cc < 0 else ln - 1 if cc >= ln else cc
+    return None if (cc < 0 or cc >= ln) else cc
+
+
+def _py_zoomshift(shape, order, mode, coord):
+    """zoom_shift at one output position of a C-contiguous array: (flagged, [idxs[fi]])"""
+    rank = len(shape)
+    strides = [int(np.prod(shape[r + 1:])) for r in range(rank)]
+    offsets, edge = [], []
+    for r in range(rank):
+        ln, c = shape[r], coord[r]
+        cc = _py_fix_offset(mode, c, ln) if (c < 0 or c > ln - 1) else c
+        if cc is None:
+            return True, []
+        start = cc - order // 2
+        offsets.append(strides[r] * start)
+        if start < 0 or start + order >= ln:
+            e = []
+            for hh in range(order + 1):
+                idx = start + hh
+                if ln <= 1:
+                    idx = 0
+                else:
+                    s2 = 2 * ln - 2
+                    if idx < 0:
+                        idx = s2 * _cdiv(-idx, s2) + idx
+                        idx = idx + s2 if idx <= 1 - ln else -idx
+                    elif idx >= ln:
+                        idx -= s2 * _cdiv(idx, s2)
+                        if idx >= ln:
+                            idx = s2 - idx
+                e.append(strides[r] * (idx - start))
+            edge.append(e)
+        else:
+            edge.append([])
+    fsize = (order + 1) ** rank
+    ftmp, off, fco, foff = [0] * rank, 0, [], []
+    for hh in range(fsize):
+        fco.append(list(ftmp))
+        foff.append(off)
+        for r in range(rank - 1, -1, -1):
+            if ftmp[r] < order:
+                ftmp[r] += 1
+                off += strides[r]
+                break
+            ftmp[r] = 0
+            off -= strides[r] * order
+    oo = sum(offsets)
+    on_edge = any(edge)
+    out = []
+    for fi in range(fsize):
+        if on_edge:
+            idx = oo
+            for r in range(rank):
+                idx += edge[r][fco[fi][r]] if edge[r] else fco[fi][r] * strides[r]
+        else:
+            idx = oo + foff[fi]
+        out.append(idx)
+    return False, out
+
+
+def _py_spline(ln, mxs):
+    if ln <= 1:
+        return [], True
+    a = [ll for ll in range(ln)]
+    for mx in mxs:
+        if mx < ln:
+            a += [0] + [ll for ll in range(1, mx)]
+        else:
+            a += [0, ln - 1] + [ll for ll in range(1, ln - 1)]
+        a += [0]
+        for ll in range(1, ln):
+            a += [ll, ll - 1]
+        a += [ln - 1, ln - 1, ln - 2]
+        for ll in range(ln - 2, -1, -1):
+            a += [ll, ll + 1, ll]
+    return [(i, ln) for i in a], True
+
+
+def _py_haar(n1):
+    h = n1 // 2
+    xs, d1 = _iter_ne(0, h, n1 + 1)
+    a = []
+    for x in xs:
+        a += [(2 * x, n1), (2 * x + 1, n1), (x, n1), (h + x, n1)]
+    xs, d2 = _iter_ne(0, n1, n1 + 1)
+    for x in xs:
+        a += [(x, n1), (x, n1)]
+    return a, d1 and d2
+
+
+def _py_wavelet(n1, nc):
+    h = n1 // 2
+    a = []
+    cis, d1 = _iter_ne(0, nc, nc + 1)
+    for x in range(h):
+        for ci in cis:
+            p = 2 * x + ci
+            if 0 <= p < n1:
+                a.append((p, n1))
+            a += [(nc - ci - 1, nc), (ci, nc)]
+        a += [(x, n1), (h + x, n1)]
+    xs, d2 = _iter_ne(0, n1, n1 + 1)
+    for x in xs:
+        a += [(x, n1), (x, n1)]
+    return a, d1 and d2
+
+
+def _py_iwavelet(n1, nc, step):
+    h = n1 // 2
+    ext = (n1 - 1) * step + 1
+    hi = _cdiv(step * n1, 2)
+    a = []
+    cis, d1 = _iter_ne(0, nc, nc + 1)
+    for x in range(n1):
+        for ci in cis:
+            xmap2 = x + ci - nc + 2
+            if xmap2 & 1:
+                xmap = _cdiv(xmap2, 2)
+                a += [(ci, nc), (nc - ci - 1, nc)]
+                if 0 <= xmap < h:
+                    a += [(xmap * step, ext), (hi + xmap * step, ext)]
+        a.append((x, n1))
+    xs, d2 = _iter_ne(0, n1, n1 + 1)
+    for x in xs:
+        a += [(step * x, ext), (x, n1)]
+    return a, d1 and d2
+
+
+def _py_ihaar(n1, step):
+    h = n1 // 2
+    ext = (n1 - 1) * step + 1
+    hi = _cdiv(step * n1, 2)
+    a = []
+    xs, d1 = _iter_ne(0, h, n1 + 1)
+    for x in xs:
+        a += [(hi + x * step, ext), (x * step, ext), (2 * x, n1), (2 * x + 1, n1)]
+    xs, d2 = _iter_ne(0, n1, n1 + 1)
+    for x in xs:
+        a += [(step * x, ext), (x, n1)]
+    return a, d1 and d2
+
+
+def _py_integral(n0, n1):
+    if n0 == 0 or n1 == 0:
+        return [], True
+    a = []
+    js, d1 = _iter_ne(1, n1, n1 + 1)
+    for j in js:
+        a += [(0, n0), (j, n1), (0, n0), (j - 1, n1)]
+    is_, d0 = _iter_ne(1, n0, n0 + 1)
+    for i in is_:
+        a += [(i, n0), (0, n1), (i - 1, n0), (0, n1)]
+        for j in js:
+            a += [(i, n0), (j, n1), (i - 1, n0), (j, n1), (i, n0), (j - 1, n1), (i - 1, n0), (j - 1, n1)]
+    return a, d1 and d0
+
+
+def _py_graham(n, pop1, pop2):
+    def oracle(pop):
+        return (lambda i, h: pop[(i + h) % len(pop)] != 0) if pop else (lambda i, h: False)
+
+    def scan(cmp, base, cnt):
+        a = []
+        h = 1
+        for i in range(1, cnt):
+            while h >= 2:
+                a += [(base + h - 2, n), (base + h - 1, n), (base + i, n)]
+                if not cmp(i, h):
+                    break
+                h -= 1
+            a += [(base + h, n), (base + i, n)]
+            h += 1
+        return a, h
+
+    if n <= 3:
+        return [(i, n) for i in range(n)], True, n
+    a, h = scan(oracle(pop1), 0, n)
+    xs, done = _iter_ne(0, h - 1, n + 1)
+    for i in xs:
+        a += [(i, n), (i + 1, n)]
+    a2, h2 = scan(oracle(pop2), h - 2, n - h + 2)
+    res = h + h2 - 2
+    return a + a2 + [(i, n) for i in range(res)], done, res
+
+
+_THIN_TABLES = {}
+
+
+def _thin_tables():
+    """the delta tables and fill_data calls of _thin.cpp, parsed from the staged source"""
+    if not _THIN_TABLES:
+        import re
+        src = (core.REPO / 'mahotas' / '_thin.cpp').read_text()
+        tabs = {m.group(1): [int(v) for v in m.group(2).replace('+', '').split(',')]
+                for m in re.finditer(r'const npy_intp (\w+)\[\] = \{([^}]*)\};', src)}
+        calls = re.findall(r'fill_data\(array, elems\[\d\],\s*(?:true|false), (\w+), (\w+)\);', src)
+        if len(calls) != 8 or not all(a in tabs and b in tabs for a, b in calls):
+            raise core.Infra('_thin.cpp: delta tables / fill_data calls not recognised')
+        _THIN_TABLES['elems'] = [(tabs[a], tabs[b]) for a, b in calls]
+    return _THIN_TABLES['elems']
+
+
+def _py_thin(rows, cols, img):
+    n = rows * cols
+    offs = [d0 * cols + d1 for t0, t1 in _thin_tables() for d0, d1 in zip(t0, t1)]
+    a = []
+    for i, b in enumerate(img):
+        a.append((i, n))
+        if b:
+            a += [(i + d, n) for d in offs]
+    frame = all(not (b and (i // cols in (0, rows - 1) or i % cols in (0, cols - 1))) for i, b in enumerate(img))
+    return a, True, frame
+
+
+def _py_cwnb(shape, bshape):
+    """every neighbour position inside the image, as flat index pos + pos_to_flat(offset)"""
+    n = int(np.prod(shape))
+    strides = [int(np.prod(shape[r + 1:])) for r in range(len(shape))]
+    offs = [tuple(k - b // 2 for k, b in zip(kk, bshape)) for kk in np.ndindex(*bshape)]
+    a = []
+    for i in range(n):
+        p = np.unravel_index(i, shape)
+        for o in offs:
+            if all(0 <= pi + oi < s for pi, oi, s in zip(p, o, shape)):
+                a.append((i + sum(oi * st for oi, st in zip(o, strides)), n))
+    return a, True
+
+
+def _csv(v):
+    return ','.join(str(int(x)) for x in v) or '-'
+
+
+def _model2_line_and_direct(case):
+    w, q = case['which'], case['p']
+    if w == 'zoomshift':
+        line = f"c10 kind=zoomshift shape={_csv(q['shape'])} order={q['order']} mode={q['mode']} coord={_csv(q['coord'])}"
+        flag, idxs = _py_zoomshift(q['shape'], q['order'], q['mode'], q['coord'])
+        n = int(np.prod(q['shape']))
+        return line, [(i, n) for i in idxs], True, dict(flag=str(int(flag)), idx=_csv(idxs) if not flag else '-')
+    if w == 'spline':
+        return (f"c10 kind=spline len={q['len']} mxs={_csv(q['mxs'])}",) + _py_spline(q['len'], q['mxs']) + ({},)
+    if w == 'haar':
+        return (f"c10 kind=haar n1={q['n1']}",) + _py_haar(q['n1']) + ({},)
+    if w == 'wavelet':
+        return (f"c10 kind=wavelet n1={q['n1']} nc={q['nc']}",) + _py_wavelet(q['n1'], q['nc']) + ({},)
+    if w == 'iwavelet':
+        return (f"c10 kind=iwavelet n1={q['n1']} nc={q['nc']} step={q['step']}",) + _py_iwavelet(q['n1'], q['nc'], q['step']) + ({},)
+    if w == 'ihaar':
+        return (f"c10 kind=ihaar n1={q['n1']} step={q['step']}",) + _py_ihaar(q['n1'], q['step']) + ({},)
+    if w == 'integral':
+        return (f"c10 kind=integral n0={q['n0']} n1={q['n1']}",) + _py_integral(q['n0'], q['n1']) + ({},)
+    if w == 'graham':
+        a, done, res = _py_graham(q['n'], q['pop1'], q['pop2'])
+        return f"c10 kind=graham n={q['n']} pop1={_csv(q['pop1'])} pop2={_csv(q['pop2'])}", a, done, dict(h=str(res))
+    if w == 'thin':
+        a, done, frame = _py_thin(q['rows'], q['cols'], q['img'])
+        return f"c10 kind=thin rows={q['rows']} cols={q['cols']} img={_csv(q['img'])}", a, done, dict(frame=str(int(frame)))
+    if w == 'cwnb':
+        return (f"c10 kind=cwnb shape={_csv(q['shape'])} bshape={_csv(q['bshape'])}",) + _py_cwnb(q['shape'], q['bshape']) + ({},)
+    raise core.Infra(f'unknown model2 kind {w}')
+
+
+def _eval_model2(case):
+    line, acc, term, extra = _model2_line_and_direct(case)
+    drv = core.drive([line])[0]
+    ok = all(0 <= i < n for i, n in acc) and term
+    want = dict(ok=str(int(ok)), n=str(len(acc)), term=str(int(term)), sum=str(sum(i for i, _ in acc)), **extra)
+    fnd = []
+    bad = {k: (drv.get(k), v) for k, v in want.items() if drv.get(k) != v}
+    if 'error' in drv or bad:
+        fnd.append(dict(kind='model', key='bounds-model2:' + case['which'],
+                        detail=dict(line=line, answer={k: drv.get(k) for k in list(want) + ['error']}, direct=want, differ=bad)))
+    elif case.get('domain', True) and not ok:
+        # parameters of the documented domain for which the index expressions leave the buffer: the theorem's instance fails
+        fnd.append(dict(kind='property', key='index-out-of-bounds:' + case['which'], detail=dict(line=line, direct=want)))
+    return dict(findings=fnd, nontrivial=len(acc) > 0, sig=line, n=len(acc),
+                tags=dict(kind='model2', which=case['which'], ok=want['ok'], domain=case.get('domain', True)))
+
+
+def _std_like_round(v):
+    import math
+    return math.floor(v + 0.5) if v > 0.0 else math.ceil(v - 0.5)
+
+
+def _eval_zoomshift_real(case):
+    """the elements the REAL zoom_shift reads (support of the outputs for one-hot inputs, prefilter off) against the index
+    list of the Lean model at every output position"""
+    import math
+    import mahotas.interpolate as mi
+    shape, order, mode, shift = case['shape'], case['order'], case['mode'], case['shift']
+    N = int(np.prod(shape))
+    code = catalog.MODES.index(mode)
+    neg = [-float(s) for s in shift]            # the wrapper passes shifts = -shift
+    lines, exact = [], []
+    for kk in np.ndindex(*shape):
+        coord, inr = [], True
+        for r, k in enumerate(kk):
+            cc = float(k) + neg[r]
+            if cc < 0 or cc > shape[r] - 1:
+                coord.append(int(_std_like_round(cc)))
+                inr = False
+            else:
+                coord.append(int(math.floor(cc if order & 1 else cc + 0.5)))
+                inr = inr and (2 * cc) != math.floor(2 * cc)     # at k and k + 0.5 one spline weight is exactly 0
+        lines.append(f"c10 kind=zoomshift shape={_csv(shape)} order={order} mode={code} coord={_csv(coord)}")
+        exact.append(inr)
+    drv = core.drive(lines)
+    support = [set() for _ in range(N)]
+    try:
+        for k in range(N):
+            a = np.zeros(N, np.float64)
+            a[k] = 1.0
+            if 0 < order < 5:
+                out = mi.shift(a.reshape(shape), shift, order=order, mode=mode, cval=0.0, prefilter=False)
+            else:
+                # orders 0 and 5 exist in the kernel but not behind the wrapper: valid direct call of the entry point
+                out = np.zeros(shape, np.float64)
+                mi._interpolate.zoom_shift(a.reshape(shape), None, np.array(neg, np.float64), out, order, code, 0.0)
+            for p in np.flatnonzero(out.ravel() != 0.0):
+                support[int(p)].add(k)
+    except (ValueError, NotImplementedError) as e:
+        return dict(findings=[], nontrivial=False, sig=json.dumps(case, sort_keys=True), tags=dict(kind='zoomshift', outcome='exc:' + type(e).__name__))
+    fnd = []
+    bad = []
+    for p, (d, ex) in enumerate(zip(drv, exact)):
+        if 'error' in d or d.get('ok') != '1':
+            fnd.append(dict(kind='model', key='zoomshift:model-out-of-range', detail=dict(line=lines[p], answer=d)))
+            break
+        model = set(core.ints(d['idx'])) if d.get('flag') == '0' and d.get('idx') not in (None, '-') else set()
+        # every element the real kernel used must be one the model lists; where every coordinate is inside the array and
+        # fractional all spline weights are non-zero, so the two sets must be equal
+        if not support[p] <= model or (ex and support[p] != model):
+            bad.append((p, sorted(support[p]), sorted(model), lines[p]))
+    if bad:
+        oob = any(not (0 <= k < N) for _, sup, _, _ in bad for k in sup)
+        fnd.append(dict(kind='property' if oob else 'model', key='zoomshift:elements-read', detail=dict(case=case, first=bad[:4], n=len(bad))))
+    return dict(findings=fnd, nontrivial=True, sig=json.dumps(case, sort_keys=True), n=N * (order + 1) ** len(shape),
+                tags=dict(kind='zoomshift', mode=mode, order=order, ndim=len(shape)))
+
+
 def evaluate(cases):
     out = []
     for c in cases:
         k = c.get('kind', 'sweep')
-        out.append(_eval_filter(c) if k == 'filter' else _eval_model(c) if k == 'model' else _eval_sweep(c))
+        out.append(_eval_filter(c) if k == 'filter' else _eval_model(c) if k == 'model' else _eval_model2(c) if k == 'model2' else
+                   _eval_zoomshift_real(c) if k == 'zoomshift' else _eval_sweep(c))
     return out
 
 
@@ -249,6 +665,72 @@ def _model_cases(rng, n):
     return out
 
 
+
+def _model2_cases(rng, n):
+    """random parameters for the round-2 index models (zoom_shift, spline_filter1d, haar/wavelets, integral, Graham scan,
+    thin, cwatershed neighbours): the driver's verdict is compared with the direct Python evaluation; `domain=False`
+    marks parameters outside the documented domain (only agreement is required there: non-vacuity of the checkers)."""
+    out = []
+    R = rng.randint
+    kinds = ['zoomshift', 'zoomshift', 'spline', 'haar', 'wavelet', 'iwavelet', 'ihaar', 'integral', 'graham', 'thin', 'thin', 'cwnb']
+    for _ in range(n):
+        w = rng.choice(kinds)
+        dom = True
+        if w == 'zoomshift':
+            nd = rng.choice([1, 1, 2, 2, 3])
+            shape = [R(1, {1: 9, 2: 6, 3: 4}[nd]) for _ in range(nd)]
+            # coordinates far outside, just outside, on the edges and inside
+            coord = [rng.choice([R(-40, 40), R(-3, s + 2), 0, s - 1, R(0, s - 1)]) for s in shape]
+            q = dict(shape=shape, order=R(0, 5) if nd < 3 else R(0, 3), mode=R(0, 5), coord=coord)
+        elif w == 'spline':
+            ln = R(0, 14)
+            q = dict(len=ln, mxs=[rng.choice([R(-2, 3), R(1, ln + 2), 12, 27, 5]) for _ in range(R(1, 2))])
+        elif w == 'haar':
+            q = dict(n1=R(0, 17))
+        elif w == 'wavelet':
+            q = dict(n1=R(0, 15), nc=rng.choice([0, 2, 4, 6, 8, 20, R(1, 9)]))
+        elif w == 'iwavelet':
+            q = dict(n1=R(0, 13), nc=rng.choice([2, 4, 6, 8, 20, R(1, 9)]), step=R(1, 7))
+        elif w == 'ihaar':
+            q = dict(n1=R(0, 15), step=R(1, 9))
+        elif w == 'integral':
+            q = dict(n0=R(0, 7), n1=R(0, 7))
+        elif w == 'graham':
+            nn = R(0, 14)
+            q = dict(n=nn, pop1=[R(0, 1) for _ in range(R(0, 7))], pop2=[R(0, 1) for _ in range(R(0, 7))])
+            if rng.random() < 0.2:
+                q['pop1'] = [1]          # always pop: h stays at 2
+            if rng.random() < 0.2:
+                q['pop2'] = [1]
+        elif w == 'thin':
+            rows, cols = R(1, 6), R(1, 6)
+            img = np.zeros((rows, cols), int)
+            if rows > 2 and cols > 2:
+                img[1:-1, 1:-1] = [[R(0, 1) for _ in range(cols - 2)] for _ in range(rows - 2)]
+            if rng.random() < 0.3:   # outside the domain: a set pixel on the frame (what thin.py's zero frame prevents)
+                y, x = rng.choice([(0, R(0, cols - 1)), (rows - 1, R(0, cols - 1)), (R(0, rows - 1), 0), (R(0, rows - 1), cols - 1)])
+                img[y, x] = 1
+                dom = False
+            q = dict(rows=rows, cols=cols, img=[int(v) for v in img.ravel()])
+        else:
+            nd = R(1, 3)
+            q = dict(shape=[R(1, 5) for _ in range(nd)], bshape=[rng.choice([1, 2, 3, 3, 5]) for _ in range(nd)])
+        out.append(dict(kind='model2', which=w, p=q, domain=dom))
+    return out
+
+
+def _zoomshift_cases(rng, n):
+    out = []
+    for _ in range(n):
+        nd = rng.choice([1, 1, 2, 2, 3])
+        shape = [rng.randint(1, {1: 10, 2: 5, 3: 3}[nd]) for _ in range(nd)]
+        shift = [rng.choice([rng.uniform(-2.5, 2.5), rng.uniform(-12, 12), rng.randint(-3, 3) + 0.37, float(rng.randint(-2, 2)), 0.5])
+                 for _ in range(nd)]
+        out.append(dict(kind='zoomshift', shape=shape, order=rng.randint(0, 5) if nd < 3 else rng.randint(0, 3),
+                        mode=rng.choice(catalog.MODES), shift=[round(x, 6) for x in shift]))
+    return out
+
+
 def cases(rng, tier):
     out = list(_corpus()) if tier != 'search' else []
     nsweep = dict(quick=5000, thorough=60000, search=8000)[tier]
@@ -272,6 +754,10 @@ def cases(rng, tier):
     for i in range(nsweep):
         fn = fns[i % len(fns)] if i < 4 * len(fns) else rng.choice(fns)      # every entry point at least four times
         out.append(dict(kind='sweep', call=catalog.valid_call(rng, fn)))
+    if MODEL_KINDS_READY:
+        # round 2 (appended last so that the random stream of the cases above is unchanged)
+        out += _model2_cases(rng, dict(quick=600, thorough=6000, search=0)[tier])
+        out += _zoomshift_cases(rng, dict(quick=120, thorough=1500, search=0)[tier])
     return out
 
 
